@@ -75,6 +75,29 @@ def grid_points(tier):
     return psi, mu, eps, lap
 
 
+NEAR = [-1e-2, -1e-4, -1e-6, 1e-6, 1e-4, 1e-2]
+
+
+def near_threshold_points(gamma, u, dt):
+    """points whose discriminant is a prescribed small number (either sign): w is chosen perpendicular to z with
+    |w| = sqrt((1 - delta)/4)/|z|, which gives disc = delta exactly, and the Laplacian action that produces this w is solved for."""
+    if gamma == 0:
+        return None
+    P, M, E, L = [], [], [], []
+    for mod, ph, mu, eps in itertools.product((0.5, 1.0), (0.3, 2.0), (0.0, 0.3), (1.0, 0.0)):
+        psi = mod * np.exp(1j * ph)
+        a2 = mod * mod
+        U = np.exp(-1j * mu * dt)
+        z = U * gamma**2 / 2 * psi
+        s = np.sqrt(1 + gamma**2 * a2)
+        for delta in NEAR:
+            r = np.sqrt((1 - delta) / 4) / abs(z)
+            w = 1j * z / abs(z) * r
+            lap = ((w - z * a2) / U - psi) / ((dt / u) * s) - (eps - a2) * psi
+            P.append(psi), M.append(mu), E.append(eps), L.append(lap)
+    return np.array(P, complex), np.array(M, float), np.array(E, float), np.array(L, complex)
+
+
 def call(psi, mu, eps, lap, gamma, u, dt):
     """submit sites (plus the helper site) to the documented static method"""
     import scipy.sparse as sp
@@ -150,6 +173,10 @@ def run_grid(case):
     res.key = case_key(case)
     g, u, dt = case["gamma"], case["u"], case["dt"]
     psi, mu, eps, lap = grid_points(case["tier"])
+    near = near_threshold_points(g, u, dt)
+    if near is not None and dt >= 1e-6:  # for smaller dt the required Laplacian action is so large that rounding in w swamps delta
+        psi, mu, eps, lap = (np.concatenate([a, b]) for a, b in zip((psi, mu, eps, lap), near))
+        res.count("near_threshold_points", len(near[0]))
     ref = psi_update(psi, mu, eps, g, u, dt, lap)
     b = np.asarray(ref["b"], np.longdouble)
     disc = np.asarray(ref["disc"], np.longdouble)
